@@ -6,6 +6,7 @@ from simaple.simulate.component.trait.impl import (
     InvalidatableCooldownTrait,
     UseSimpleAttackTrait,
 )
+from simaple.simulate.component.util import is_rejected
 from simaple.simulate.global_property import Dynamics
 
 
@@ -38,6 +39,9 @@ class DOTEmittingAttackSkillComponent(
     @reducer_method
     def use(self, _: None, state: DOTEmittingState):
         state, event = self.use_simple_attack(state)
+        if is_rejected(event):
+            return state, event
+
         event += [self.get_dot_add_event()]
         return state, event
 
